@@ -61,4 +61,111 @@ theorem C16_refused (cx : Ctx) (e : IEnv) (args : List Bytes) (h : evalScriptOf 
     instEval cx e args = none := by
   unfold instEval; split <;> simp [h]
 
+/-! ### opcode-name tokens: the escape `OP_xNN` (since /repo a4419d3 `exec` reads names with `ParseOpCode`) -/
+
+/-- `exec`'s reading of the escape, for EVERY byte: the tokens `OP_xNN` and `xNN` (two hex digits of either case, values
+    `h` and `l`) assemble to the one-byte script NN — the opcode byte itself, not a push — ff included -/
+theorem C16_token_opx (a b : UInt8) (h l : Nat) (ha : hexDigitVal a = some h) (hb : hexDigitVal b = some l) :
+    evalToken [79, 80, 95, 120, a, b] = some [UInt8.ofNat (h * 16 + l)] ∧
+    evalToken [120, a, b] = some [UInt8.ofNat (h * 16 + l)] := by
+  have hp1 : parseOpCode [79, 80, 95, 120, a, b] = some (h * 16 + l) := by
+    simp [parseOpCode, ha, hb]
+  have hp2 : parseOpCode [120, a, b] = some (h * 16 + l) := by
+    simp [parseOpCode, ha, hb]
+  have hn1 : cAtoi 32 [79, 80, 95, 120, a, b] = 0 := rfl
+  have hn2 : cAtoi 32 [120, a, b] = 0 := rfl
+  have hx1 : tryHex [79, 80, 95, 120, a, b] = none := rfl
+  constructor
+  · simp [evalToken, hn1, hp1, hx1]
+  · simp [evalToken, hn2, hp2]
+
+/-- `exec OP_xNN` (and `exec xNN`) executes opcode NN: it is one `StepScript` on the one-byte script NN in the session's
+    environment (`C16_first_op` relates that step to the specification), for every byte NN -/
+theorem C16_exec_opx (cx : Ctx) (e : IEnv) (a b : UInt8) (h l : Nat) (ha : hexDigitVal a = some h) (hb : hexDigitVal b = some l) :
+    instEval cx e [[79, 80, 95, 120, a, b]] =
+      some ({ e with see := (evalRun cx e.pc 2 e.see [UInt8.ofNat (h * 16 + l)]).1 },
+            (evalRun cx e.pc 2 e.see [UInt8.ofNat (h * 16 + l)]).2) ∧
+    instEval cx e [[120, a, b]] = instEval cx e [[79, 80, 95, 120, a, b]] := by
+  obtain ⟨h1, h2⟩ := C16_token_opx a b h l ha hb
+  have e1 : evalScriptOf [[79, 80, 95, 120, a, b]] = some [UInt8.ofNat (h * 16 + l)] := by
+    simp [evalScriptOf, h1]
+  have e2 : evalScriptOf [[120, a, b]] = some [UInt8.ofNat (h * 16 + l)] := by
+    simp [evalScriptOf, h2]
+  constructor
+  · unfold instEval
+    simp only [e1]
+    rfl
+  · unfold instEval
+    simp only [e1, e2]
+    rfl
+
+/-- byte ff is no operation: executed (no enclosing false branch) within the operation limit, `StepScript` answers
+    BAD_OPCODE, as for every undefined opcode -/
+theorem step_xff (cx : Ctx) (e : SEE) (hexec : e.cond.allTrue = true)
+    (hcount : e.nOpCount + 1 ≤ Gen.MAX_OPS_PER_SCRIPT ∨ (e.sigversion ≠ .BASE ∧ e.sigversion ≠ .WITNESS_V0)) :
+    step cx e [255] = fail .BAD_OPCODE := by
+  have hg : getOp [255] = some { opcode := 255, data := [], rest := [] } := by decide
+  have hop : Opcode.ofNat 255 = .UNKNOWN 255 := by decide
+  have hco : ∃ e', countOp e 255 = .ok e' ∧ e'.cond = e.cond := by
+    unfold countOp
+    split
+    · rcases hcount with hc | ⟨h1, h2⟩
+      · have : ¬ (e.nOpCount + 1 > Gen.MAX_OPS_PER_SCRIPT) := by omega
+        rw [if_pos (by decide), if_neg this]
+        exact ⟨_, rfl, rfl⟩
+      · rename_i hsv
+        simp only [Bool.or_eq_true, beq_iff_eq] at hsv
+        rcases hsv with h | h
+        · exact absurd h h1
+        · exact absurd h h2
+    · exact ⟨_, rfl, rfl⟩
+  obtain ⟨e', he', _⟩ := hco
+  unfold step
+  simp only [hg, hexec, he', hop]
+  have hdis : isDisabledOpcode (Opcode.UNKNOWN 255) = false := rfl
+  have hsep : (Opcode.UNKNOWN 255 == Opcode.OP_CODESEPARATOR) = false := rfl
+  have hpush : decide (255 ≤ Op.OP_PUSHDATA4) = false := by decide
+  have hsz : ¬ (([] : Bytes).length > Gen.MAX_SCRIPT_ELEMENT_SIZE) := by decide
+  rw [if_neg hsz]
+  simp only [bind, Except.bind, hdis, hsep, hpush, Bool.and_false, Bool.false_and, Bool.false_eq_true, if_false,
+    Bool.true_or, if_true]
+  rfl
+
+/-- `exec OP_xff` / `exec xff` where operations are executed: the operation is attempted and fails with BAD_OPCODE (as
+    `exec` of any undefined opcode does), nothing of the session changes — it is no longer refused as "invalid opcode"
+    before execution (finding F-C07-opxff, repaired in /repo a4419d3) -/
+theorem C16_exec_xff (cx : Ctx) (e : IEnv) (hexec : e.see.cond.allTrue = true)
+    (hcount : e.see.nOpCount + 1 ≤ Gen.MAX_OPS_PER_SCRIPT ∨ (e.see.sigversion ≠ .BASE ∧ e.see.sigversion ≠ .WITNESS_V0)) :
+    instEval cx e [[79, 80, 95, 120, 102, 102]] = some (e, some (.script .BAD_OPCODE)) ∧
+    instEval cx e [[120, 102, 102]] = some (e, some (.script .BAD_OPCODE)) := by
+  obtain ⟨h1, h2⟩ := C16_exec_opx cx e 102 102 15 15 rfl rfl
+  have hs := step_xff cx e.see hexec hcount
+  have hr : evalRun cx e.pc 2 e.see [UInt8.ofNat (15 * 16 + 15)] = (e.see, some (.script .BAD_OPCODE)) := by
+    show evalRun cx e.pc 2 e.see [255] = _
+    simp only [evalRun, hs, fail]
+    rfl
+  rw [h2, h1, hr]
+  exact ⟨rfl, rfl⟩
+
+/-- the escape and the name are the same token for `exec`: `OP_x76`, `x76`, `OP_DUP`, `DUP` all assemble to 76; `OP_xff`,
+    `xff`, `OP_xFF` to ff; a malformed escape (`OP_xf`, `OP_xfff`) and the enumerator name `INVALIDOPCODE` are refused -/
+example : evalToken [79, 80, 95, 120, 55, 54] = some [0x76] ∧ evalToken [120, 55, 54] = some [0x76] ∧
+    evalToken [79, 80, 95, 68, 85, 80] = some [0x76] ∧ evalToken [68, 85, 80] = some [0x76] ∧
+    evalToken [79, 80, 95, 120, 102, 102] = some [0xff] ∧ evalToken [120, 102, 102] = some [0xff] ∧
+    evalToken [79, 80, 95, 120, 70, 70] = some [0xff] ∧
+    evalToken [79, 80, 95, 120, 102] = none ∧ evalToken [79, 80, 95, 120, 102, 102, 102] = none ∧
+    evalToken [73, 78, 86, 65, 76, 73, 68, 79, 80, 67, 79, 68, 69] = none := by decide +kernel
+
+/-- the hypotheses of `C16_exec_xff` hold in an ordinary session state (here: the script `OP_1 OP_1` under no flags, nothing
+    executed yet), and there `exec OP_xff` answers BAD_OPCODE and leaves the session as it was -/
+example (cx : Ctx) :
+    let e : IEnv := { see := { script := [0x51, 0x51], pbegincodehash := [0x51, 0x51], flags := 0, sigversion := .BASE, requireMinimal := false },
+                      pc := [0x51, 0x51] }
+    e.see.cond.allTrue = true ∧ e.see.nOpCount + 1 ≤ Gen.MAX_OPS_PER_SCRIPT ∧
+    instEval cx e [[79, 80, 95, 120, 102, 102]] = some (e, some (.script .BAD_OPCODE)) := by
+  intro e
+  have h1 : e.see.cond.allTrue = true := rfl
+  have h2 : e.see.nOpCount + 1 ≤ Gen.MAX_OPS_PER_SCRIPT := by decide
+  exact ⟨h1, h2, (C16_exec_xff cx e h1 (Or.inl h2)).1⟩
+
 end Btcdeb.Proofs.C16
